@@ -4,6 +4,7 @@ import (
 	"context"
 	"fmt"
 	"os"
+	"sort"
 	"strconv"
 	"time"
 
@@ -76,6 +77,10 @@ func (lh *LocationHelper) permanodeLocation(ctx context.Context,
 		if err != nil {
 			return camtypes.Location{}, err
 		}
+		// AppendClaims may append in any order (the index rows are
+		// grouped by signer), but permAttr.get folds the claims in
+		// the order given.
+		sort.Sort(camtypes.ClaimsByDate(claims))
 		pa.claims = claimSlice(claims)
 	}
 
